@@ -230,7 +230,7 @@ DenoteOK(o) ==
             [] od.kind \in {"func0", "func1"} ->
                    LET cs == SelectSeq(Calls(st.events), LAMBDA e : e.o = o) IN
                    /\ Len(cs) = Len(oc)
-                   /\ od.kind = "func1" => \A k \in 1..Len(oc) : cs[k].arg = conv(oc[k])
+                   /\ (od.kind = "func1" /\ od.param = "") => \A k \in 1..Len(oc) : cs[k].arg = conv(oc[k])
             [] OTHER -> TRUE
 ValuesDenote == (Done /\ Ok /\ ~st.grey) => \A o \in 1..Len(st.d.opts) : DenoteOK(o)
 UntouchedWithoutOccurrence ==
